@@ -6,6 +6,9 @@ import (
 	"testing"
 	"unicode/utf8"
 
+	"github.com/hattya/go.sh/ast"
+	"github.com/hattya/go.sh/parser"
+
 	"verifsim/gen"
 	"verifsim/gosim"
 )
@@ -14,6 +17,8 @@ import (
 type c10 struct{}
 
 func init() {
+	gosim.Sentinels["wraps-parser-error"] = fmt.Errorf("include lib.sh: %w", parser.Error{Name: "lib.sh", Pos: ast.NewPos(3, 7), Msg: "syntax error: unexpected EOF"})
+
 	Register(c10{})
 	rules["C10"] = "a case is (program, reader variant) with variant in {scanner/persistent, scanner/transient, scanner-multi-unread/persistent, bufio-reader/persistent(+data+err, chunked), bufio-reader/transient, bufio-reader/zero-progress}; for each case EVERY single-fault position is enumerated (every rune start 0..len for the RuneScanner, every byte offset 0..len for the io.Reader) and each position is run under parser-first, lexer-first and a seeded schedule. Programs: curated, seeded generated programs, mutants (invalid) and short token strings. Oracle: if the injected failure was delivered before the call returned (io.Reader behind bufio: if the fault offset lies inside what the fault-free run of the same program consumed) then err != nil and errors.Is(err, injected) (io.ErrNoProgress for zero-progress), and the call returns. evaluations = simulated runs (one per program x variant x position x schedule); non-trivial = the fault was actually delivered in at least one position; distinct = distinct (program, variant)"
 }
@@ -108,6 +113,13 @@ func (p c10) Gen(seed uint64, tier string, idx int) (*Case, bool) {
 			// a well-known sentinel of the standard library, unwrapped
 			c.Reader.ErrKind = gosim.SentinelKinds[(pi/7)%len(gosim.SentinelKinds)]
 		}
+		if pi%9 == 5 {
+			// a read error whose chain holds one of the library's own error values
+			c.Reader.ErrKind = "wraps-parser-error"
+		}
+	}
+	if pi%5 == 2 {
+		c.SrcName = SrcNames[(pi/5)%len(SrcNames)]
 	}
 	return c, true
 }
